@@ -10,6 +10,7 @@ SHARDS = {"quick": 8, "thorough": 16}
 TIMEOUT = {"quick": 900, "thorough": 7200}
 REQUIRED = {"encode": 2000, "reject_size": 100, "whitespace_hex": 50, "bits_api": 10, "wordlist": 1,
             "probe.mnemonic_from_entropy": 500}
+ANCHORS = ['bip39:mnemonic_from_entropy', 'bip39:mnemonic_from_entropy_bits', 'base_wallet:BaseWallet.from_entropy_hex']
 RULE = ("per allowed size: all-zero, all-one, walking-one and walking-zero over EVERY bit position (exhaustive, 2x960), "
         "1..ENT/8-1 leading zero bytes, checksum-straddling patterns, random; rejection: every other byte length 0..64, odd "
         "hex length, whitespace at start/middle/end, 0x prefix, underscores; word list compared element-wise with a "
@@ -240,6 +241,30 @@ def run(ctx):
             else:
                 hx = "   ".join(raw[i:i + 8] for i in range(0, len(raw), 8))
             judge_whitespace(ctx, {"hex": hx, "tag": kind})
+        # strings whose CHARACTER count looks like an allowed size (32/40/48/56/64) while the decoded BYTE count is another
+        # one (legal or not): a validator that counts characters instead of bytes accepts these
+        for _ in range(ctx.scale(240, 30000)):
+            T = rnd.choice([32, 40, 48, 56, 64])
+            w = rnd.choice([2, 2, 4, 8, 16, T // 3 - (T // 3) % 2])
+            nb = (T - w) // 2
+            raw = gen.rbytes(rnd, nb).hex()
+            pairs = [raw[i:i + 2] for i in range(0, len(raw), 2)]
+            ws = [rnd.choice([" ", " ", "\n", "\t"]) for _ in range(w)]
+            mode = rnd.choice(["trailing", "leading", "between", "between"])
+            if mode == "trailing":
+                hx = raw + "".join(ws)
+            elif mode == "leading":
+                hx = "".join(ws) + raw
+            else:
+                slots = [""] * (len(pairs) + 1)
+                for c in ws:
+                    slots[rnd.randrange(len(slots))] += c
+                hx = slots[0] + "".join(p + s_ for p, s_ in zip(pairs, slots[1:]))
+            judge_whitespace(ctx, {"hex": hx, "tag": "charcount-%d-bytes-%s" % (T, "legal" if nb in SIZES else "illegal")})
+        for hx in ("00 " * 16, "ab " * 16, "00 " * 20 + "00" * 2):
+            n += 1
+            if ctx.mine(n):
+                judge_whitespace(ctx, {"hex": hx, "tag": "charcount-fixed"})
         for j, bits in enumerate([128, 160, 192, 224, 256, 0, 1, 8, 64, 96, 127, 129, 144, 255, 257, 288, 512, -128]):
             n += 1
             if ctx.mine(n):
